@@ -53,6 +53,29 @@ def env_key(env: dict) -> str:
 
 # --------------------------------------------------------------------------- zygotes
 
+_NO_ASLR: list | None = None
+
+
+def _no_aslr() -> list:
+    """Zygotes run with address-space randomisation off (`setarch -R`) when the platform allows it, so
+    that real object addresses -- which some defects depend on -- are the same in every interpreter
+    started for the same schedule and a replay in a fresh interpreter sees the same layout."""
+    global _NO_ASLR  # pylint: disable=global-statement
+    if _NO_ASLR is None:
+        _NO_ASLR = []
+        import platform  # pylint: disable=import-outside-toplevel
+        import shutil  # pylint: disable=import-outside-toplevel
+        exe = shutil.which("setarch")
+        if exe and os.environ.get("VERIF_ASLR", "off") == "off":
+            cmd = [exe, platform.machine(), "-R"]
+            try:
+                if subprocess.run(cmd + ["true"], capture_output=True, timeout=10, check=False).returncode == 0:
+                    _NO_ASLR = cmd
+            except Exception:  # pylint: disable=broad-except
+                pass
+    return _NO_ASLR
+
+
 
 class Zygote:
 
@@ -68,7 +91,7 @@ class Zygote:
         for k, v in (env.get("environ") or {}).items():
             e[k] = str(v)
         self.proc = subprocess.Popen(
-            [PY, os.path.join(VERIF, "sim", "zygote.py"), prop],
+            _no_aslr() + [PY, os.path.join(VERIF, "sim", "zygote.py"), prop],
             stdin=subprocess.PIPE,
             stdout=subprocess.PIPE,
             env=e,
